@@ -91,6 +91,26 @@ theorem sha512_correct (buf0 : Bytes) (h0 : buf0.length = 128) (chunks : List By
   rw [sha512_mdDigest _ hlen] at h
   exact ⟨h, by rw [h, hexLower_eq], by rw [h, hexUpper_eq]⟩
 
+/-- **The `tlx::string_view` overloads** (`process(string_view)`, the `string_view` constructors and
+    `xxx_hex(string_view)` helpers): the string is fed to `process(const void*, uint32)` in pieces
+    that all fit the 32-bit size parameter (`svPieces_lt`), and the digest is again that of the
+    standard for every list of strings of any length. -/
+theorem string_view_correct (chunks : List Bytes) :
+    (∀ p ∈ chunks.flatMap svPieces, p.length < 2 ^ 32) ∧
+    (∀ b, b.length = 64 → (finalize Model.MD5.params (chunks.foldl (processSV Model.MD5.params) (Model.MD5.params.new b))).1 = Spec.MD5.hash chunks.flatten) ∧
+    (∀ b, b.length = 64 → (finalize Model.SHA1.params (chunks.foldl (processSV Model.SHA1.params) (Model.SHA1.params.new b))).1 = Spec.SHA1.hash chunks.flatten) ∧
+    (∀ b, b.length = 64 → (finalize Model.SHA256.params (chunks.foldl (processSV Model.SHA256.params) (Model.SHA256.params.new b))).1 = Spec.SHA256.hash chunks.flatten) ∧
+    (∀ b, b.length = 128 → 8 * chunks.flatten.length < 2 ^ 64 →
+      (finalize Model.SHA512.params (chunks.foldl (processSV Model.SHA512.params) (Model.SHA512.params.new b))).1 = Spec.SHA512.hash chunks.flatten) := by
+  refine ⟨?_, ?_, ?_, ?_, ?_⟩
+  · intro p hp
+    obtain ⟨c, _, hc⟩ := List.mem_flatMap.mp hp
+    exact svPieces_lt c p hc
+  · intro b hb; rw [digestOfChunksSV_eq _ md5_wf b hb, md5_mdDigest]
+  · intro b hb; rw [digestOfChunksSV_eq _ sha1_wf b hb, sha1_mdDigest]
+  · intro b hb; rw [digestOfChunksSV_eq _ sha256_wf b hb, sha256_mdDigest]
+  · intro b hb hl; rw [digestOfChunksSV_eq _ sha512_wf b hb, sha512_mdDigest _ hl]
+
 /-- Corollary in the words of the property: the digest does not depend on the chunking. -/
 theorem chunking_independent {S : Type} (P : Params S) (hP : P.WF) (b1 b2 : Bytes)
     (h1 : b1.length = P.blockSize) (h2 : b2.length = P.blockSize) (c1 c2 : List Bytes)
